@@ -77,16 +77,24 @@ def sx_coq(x):
     return 'L [' + '; '.join(sx_coq(e) for e in x) + ']'
 
 
-def ensure_built():
-    """Build the Coq development / driver if something is missing or stale."""
-    need = not DRIVER.exists() or not (COQ / 'Makefile').exists()
-    if not need:
-        r = subprocess.run(['make', '-q', '-C', str(COQ)], capture_output=True)
-        need = r.returncode != 0
-    if need:
+def ensure_built(pid=None):
+    """Build the Coq development / driver if something this property needs is missing
+    or stale.  Only the models (extraction) and Props/<pid>.v with what it imports are
+    required: a broken proof file of another property does not block this check."""
+    targets = ['Extract/Extract.vo'] + ([f'Props/{pid}.vo'] if pid else [])
+    coqc = str(VERIF / 'tools' / 'coqc_limited.sh')
+
+    def stale(tg):
+        if not DRIVER.exists() or not (COQ / 'Makefile').exists():
+            return True
+        r = subprocess.run(['make', '-q', '-C', str(COQ), 'COQC=' + coqc] + tg, capture_output=True)
+        return r.returncode != 0
+    if stale(targets):
         r = subprocess.run([str(VERIF / 'tools' / 'build.sh')], capture_output=True, text=True,
                            timeout=3600)
-        if r.returncode != 0:
+        # a proof file that does not build is reported by check_theorems() as a broken
+        # obligation of this property; only a missing model/driver stops the check here
+        if r.returncode != 0 or stale(targets[:1]):
             return False, (r.stdout + r.stderr)[-4000:]
     return True, ''
 
